@@ -36,7 +36,8 @@ def tail(p,n=600):
     except Exception: return ""
 c={"applies":True,"head":__import__('subprocess').run(["git","-C","/repo","rev-parse","HEAD"],stdout=-1,text=True).stdout.strip(),
    "demo_passes_at_head":rc_head=="0","builds_with_patch":rc_build=="0","demo_fails_with_patch":rc_mut!="0",
-   "suite_passes_with_patch":rc_suite=="0","demo_with_patch_tail":tail(base+"/demo_mut.log"),"suite_tail":tail(base+"/suite.log",400)}
+   "suite_passes_with_patch":rc_suite=="0","demo_with_patch_tail":tail(base+"/demo_mut.log"),"suite_tail":tail(base+"/suite.log",400),
+   "suite_failures":[l for l in open(base+"/suite.log").read().splitlines() if l.startswith(("FAIL","--- FAIL","panic:"))][:20]}
 c["confirmed"]=all([c["demo_passes_at_head"],c["builds_with_patch"],c["demo_fails_with_patch"],c["suite_passes_with_patch"]])
 json.dump(c,open(D+"/confirm.json","w"),indent=1)
 print(D, {k:v for k,v in c.items() if isinstance(v,bool)})
